@@ -120,8 +120,7 @@ class DOMParser:
         for d in itertools.chain([dom_], dom_.iterdescendants()):
             if (
                 isinstance(d.tag, str)  # comments and processing instructions have no tag name
-                and d.text is not None
-                and d.text.strip()
+                and d.text
                 and d.tag.lower() != "lxmltext"
             ):
                 child = lxml.html.Element("lxmltext")
@@ -129,7 +128,7 @@ class DOMParser:
                 d.insert(0, child)
                 d.text = None
 
-            if d.tail is not None and d.tail.strip():
+            if d.tail:
                 parent = d.getparent()
                 child = lxml.html.Element("lxmltext")
                 child.text = d.tail
